@@ -56,4 +56,246 @@ theorem residue_char (W n r x : Nat) (hn : 0 < n) (hr : r < n) :
         rw [Nat.mul_add] at this; omega
     · rw [Nat.mul_add_mod]; exact Nat.mod_eq_of_lt hr
 
+/-! ### Ideal reservoir: all draw vectors, per-step counts -/
+open List
+
+/-- all draw vectors for the items `k .. k+m-1`: the draw for item `i` ranges over `[0, i]`
+    (what `RandIntn(i+1)` returns); each vector is one equally likely outcome of ideal
+    uniform draws -/
+def allDraws (k : Nat) : Nat → List (List Nat)
+  | 0 => [[]]
+  | m + 1 => (allDraws k m).flatMap fun js => (List.range (k + m + 1)).map fun j => js ++ [j]
+
+/-- the reservoirs after `m` items beyond the first `k`, one per draw vector -/
+def outcomes (k m : Nat) : List (List Nat) := (allDraws k m).map (reservoir k)
+
+theorem allDraws_length (k : Nat) : ∀ (m : Nat) (js : List Nat), js ∈ allDraws k m → js.length = m
+  | 0, js, h => by simp [allDraws] at h; simp [h]
+  | m + 1, js, h => by
+    simp only [allDraws, mem_flatMap, mem_map] at h
+    obtain ⟨js', hjs', j, _, rfl⟩ := h
+    simp [allDraws_length k m js' hjs']
+
+theorem go_snoc : ∀ (js : List Nat) (res : List Nat) (i j : Nat),
+    reservoir.go res i (js ++ [j]) = stepRes (reservoir.go res i js) j (i + js.length)
+  | [], _, _, _ => by simp [reservoir.go]
+  | j' :: js, res, i, j => by
+    simp only [cons_append, reservoir.go, length_cons]
+    rw [go_snoc js]; congr 1; omega
+
+theorem flatMap_congr' {α β : Type} (l : List α) (f g : α → List β) (h : ∀ a ∈ l, f a = g a) :
+    l.flatMap f = l.flatMap g := by
+  induction l with
+  | nil => rfl
+  | cons a l ih =>
+    simp only [flatMap_cons]
+    rw [h a (by simp), ih (fun b hb => h b (by simp [hb]))]
+
+theorem outcomes_zero (k : Nat) : outcomes k 0 = [List.range k] := by
+  simp [outcomes, allDraws, reservoir, reservoir.go]
+
+theorem outcomes_succ (k m : Nat) : outcomes k (m + 1) =
+    (outcomes k m).flatMap fun res => (List.range (k + m + 1)).map fun j => stepRes res j (k + m) := by
+  unfold outcomes
+  simp only [allDraws, map_flatMap, map_map, flatMap_map]
+  apply flatMap_congr'
+  intro js hjs
+  apply map_congr_left
+  intro j _
+  simp only [Function.comp, reservoir]
+  rw [go_snoc, allDraws_length k m js hjs]
+
+theorem nodup_set_fresh : ∀ (l : List Nat) (j x : Nat), l.Nodup → x ∉ l → (l.set j x).Nodup
+  | [], _, _, _, _ => by simp
+  | a :: l, 0, x, h, hx => by
+    simp only [set_cons_zero, nodup_cons] at *
+    exact ⟨fun hm => hx (by simp [hm]), h.2⟩
+  | a :: l, j + 1, x, h, hx => by
+    simp only [set_cons_succ, nodup_cons, mem_cons, not_or] at *
+    refine ⟨fun hm => ?_, nodup_set_fresh l j x h.2 hx.2⟩
+    rcases mem_or_eq_of_mem_set hm with h1 | h1
+    · exact h.1 h1
+    · exact hx.1 h1.symm
+
+/-- reservoir invariant: `k` distinct items, all already seen -/
+def ResInv (k n : Nat) (res : List Nat) : Prop := res.length = k ∧ res.Nodup ∧ ∀ y ∈ res, y < n
+
+theorem stepRes_inv (k n j : Nat) (res : List Nat) (h : ResInv k n res) : ResInv k (n + 1) (stepRes res j n) := by
+  obtain ⟨h1, h2, h3⟩ := h
+  unfold stepRes
+  split
+  · refine ⟨by simpa using h1, nodup_set_fresh res j n h2 (fun hm => Nat.lt_irrefl _ (h3 n hm)), ?_⟩
+    intro y hy
+    rcases mem_or_eq_of_mem_set hy with h | h
+    · exact Nat.lt_succ_of_lt (h3 y h)
+    · omega
+  · exact ⟨h1, h2, fun y hy => Nat.lt_succ_of_lt (h3 y hy)⟩
+
+theorem outcomes_inv (k : Nat) : ∀ (m : Nat) (res : List Nat), res ∈ outcomes k m → ResInv k (k + m) res
+  | 0, res, h => by
+    rw [outcomes_zero] at h
+    simp only [mem_singleton] at h; subst h
+    exact ⟨by simp, nodup_range, fun y hy => by simpa using hy⟩
+  | m + 1, res, h => by
+    rw [outcomes_succ] at h
+    simp only [mem_flatMap, mem_map] at h
+    obtain ⟨res', hres', j, _, rfl⟩ := h
+    exact stepRes_inv k (k + m) j res' (outcomes_inv k m res' hres')
+
+theorem countP_lt_range : ∀ (N k : Nat), k ≤ N → countP (fun j => decide (j < k)) (List.range N) = k
+  | 0, k, h => by simp at h; simp [h]
+  | N + 1, k, h => by
+    rw [range_succ, countP_append]
+    by_cases hk : k ≤ N
+    · rw [countP_lt_range N k hk]
+      have : ¬ N < k := by omega
+      simp [this]
+    · have hk' : k = N + 1 := by omega
+      subst hk'
+      have : countP (fun j => decide (j < N + 1)) (List.range N) = N := by
+        rw [countP_congr (q := fun j => decide (j < N))]
+        · exact countP_lt_range N N (Nat.le_refl _)
+        · intro x hx; simp at hx; simp; omega
+      rw [this]; simp
+
+theorem countP_ne_range : ∀ (N d : Nat), d < N → countP (fun j => decide (j ≠ d)) (List.range N) = N - 1
+  | 0, d, h => by simp at h
+  | N + 1, d, h => by
+    rw [range_succ, countP_append]
+    by_cases hd : d < N
+    · rw [countP_ne_range N d hd]
+      have : N ≠ d := by omega
+      simp [this]; omega
+    · have hd' : d = N := by omega
+      subst hd'
+      have : countP (fun j => decide (j ≠ d)) (List.range d) = d := by
+        have h1 : countP (fun j => decide (j ≠ d)) (List.range d) = (List.range d).length :=
+          countP_eq_length.mpr (fun x hx => by simp at hx; simp; omega)
+        simpa using h1
+      rw [this]; simp
+
+/-- per-step inclusion counts: among the `n+1` equally likely draws for item `n`,
+    the new item enters the reservoir in exactly `k` … -/
+theorem step_count_new (k n : Nat) (res : List Nat) (h : ResInv k n res) (hk : k ≤ n + 1) :
+    countP (fun j => decide (n ∈ stepRes res j n)) (List.range (n + 1)) = k := by
+  obtain ⟨h1, _, h3⟩ := h
+  rw [countP_congr (q := fun j => decide (j < k))]
+  · exact countP_lt_range (n + 1) k hk
+  · intro j _
+    simp only [decide_eq_true_eq]
+    unfold stepRes
+    rw [h1]
+    constructor
+    · intro hm
+      by_cases hj : j < k
+      · exact hj
+      · simp only [hj, ↓reduceIte] at hm
+        exact absurd (h3 n hm) (Nat.lt_irrefl _)
+    · intro hj
+      simp only [hj, ↓reduceIte]
+      exact mem_set (by omega) n
+
+/-- … an item of the reservoir survives in exactly `n` … -/
+theorem step_count_old (k n x : Nat) (res : List Nat) (h : ResInv k n res) (hk : k ≤ n + 1) (hx : x ∈ res) :
+    countP (fun j => decide (x ∈ stepRes res j n)) (List.range (n + 1)) = n := by
+  obtain ⟨h1, h2, h3⟩ := h
+  obtain ⟨d, hd, hxd⟩ := mem_iff_getElem.mp hx
+  have hxn : x ≠ n := by have := h3 x hx; omega
+  rw [countP_congr (q := fun j => decide (j ≠ d))]
+  · rw [countP_ne_range (n + 1) d (by omega)]; omega
+  · intro j _
+    simp only [decide_eq_true_eq]
+    unfold stepRes
+    constructor
+    · intro hm hjd
+      subst hjd
+      simp only [hd, ↓reduceIte] at hm
+      obtain ⟨d', hd', he⟩ := mem_iff_getElem.mp hm
+      rw [getElem_set] at he
+      split at he
+      · exact hxn he.symm
+      · rename_i hne
+        have hd'' : d' < res.length := by simpa using hd'
+        have : res[d'] = res[j] := by rw [he, hxd]
+        exact hne ((getElem_inj h2).mp this).symm
+    · intro hjd
+      split
+      · apply mem_iff_getElem.mpr
+        refine ⟨d, by simpa using hd, ?_⟩
+        rw [getElem_set]; simp [hjd, hxd]
+      · exact hx
+
+/-- … and an item that is neither in the reservoir nor the new one never appears. -/
+theorem step_count_absent (n x : Nat) (res : List Nat) (hx : x ∉ res) (hxn : x ≠ n) :
+    countP (fun j => decide (x ∈ stepRes res j n)) (List.range (n + 1)) = 0 := by
+  rw [countP_eq_zero]
+  intro j _
+  simp only [decide_eq_true_eq]
+  unfold stepRes
+  split
+  · intro hm
+    rcases mem_or_eq_of_mem_set hm with h | h
+    · exact hx h
+    · exact hxn h
+  · exact hx
+
+theorem sum_map_ite {α : Type} (L : List α) (p : α → Bool) (n : Nat) :
+    (L.map fun a => if p a then n else 0).sum = n * L.countP p := by
+  induction L with
+  | nil => simp
+  | cons a L ih =>
+    simp only [map_cons, sum_cons, countP_cons, ih]
+    split <;> simp [Nat.mul_add] <;> omega
+
+theorem sum_map_const {α : Type} (L : List α) (c : Nat) : (L.map fun _ => c).sum = L.length * c := by
+  induction L with
+  | nil => simp
+  | cons a L ih => simp only [map_cons, sum_cons, ih, length_cons, Nat.add_mul]; omega
+
+theorem sum_map_congr {α : Type} (L : List α) (F G : α → Nat) (h : ∀ a ∈ L, F a = G a) :
+    (L.map F).sum = (L.map G).sum := by
+  rw [map_congr_left h]
+
+theorem outcomes_length_succ (k m : Nat) :
+    (outcomes k (m + 1)).length = (outcomes k m).length * (k + m + 1) := by
+  rw [outcomes_succ, length_flatMap]
+  simp only [length_map, length_range]
+  exact sum_map_const _ _
+
+/-- Inclusion counts of the ideal reservoir: among all draw vectors for `n = k+m` items, item
+    `x` ends up in the reservoir in exactly the fraction `k/n` of them. -/
+theorem inclusion_count (k : Nat) : ∀ (m x : Nat), x < k + m →
+    countP (fun res => decide (x ∈ res)) (outcomes k m) * (k + m) = k * (outcomes k m).length
+  | 0, x, hx => by
+    rw [outcomes_zero]
+    have : x ∈ List.range k := by simpa using hx
+    simp [this]
+  | m + 1, x, hx => by
+    rw [outcomes_length_succ, outcomes_succ, countP_flatMap]
+    by_cases hxn : x = k + m
+    · subst hxn
+      rw [sum_map_congr _ _ (fun _ => k)]
+      · rw [sum_map_const]; ac_rfl
+      · intro res hres
+        simp only [Function.comp, countP_map]
+        exact step_count_new k (k + m) res (outcomes_inv k m res hres) (by omega)
+    · have ih := inclusion_count k m x (by omega)
+      rw [sum_map_congr _ _ (fun res => if decide (x ∈ res) then k + m else 0)]
+      · rw [sum_map_ite]
+        calc (k + m) * countP (fun res => decide (x ∈ res)) (outcomes k m) * (k + (m + 1))
+            = (countP (fun res => decide (x ∈ res)) (outcomes k m) * (k + m)) * (k + m + 1) := by ac_rfl
+          _ = k * (outcomes k m).length * (k + m + 1) := by rw [ih]
+          _ = k * ((outcomes k m).length * (k + m + 1)) := by ac_rfl
+      · intro res hres
+        simp only [Function.comp, countP_map]
+        have hinv := outcomes_inv k m res hres
+        by_cases hm : x ∈ res
+        · simp only [hm, decide_true, ↓reduceIte]
+          exact step_count_old k (k + m) x res hinv (by omega) hm
+        · simp only [hm, decide_false, Bool.false_eq_true, ↓reduceIte]
+          exact step_count_absent (k + m) x res hm hxn
+
+theorem outcomes_length (k : Nat) : ∀ m, (outcomes k m).length = (allDraws k m).length := by
+  intro m; simp [outcomes]
+
 end ScionTime.Sample
